@@ -33,7 +33,7 @@ RULE = ("seeded histories of 1-40 updates x queries; distinct = canonical histor
         "updates and (a gap or an eviction or an out-of-order update occurred)")
 REQUIRED_BUCKETS = ["container:list", "container:numpy", "update-rejected-too-old", "update-out-of-order",
                     "jump-beyond-capacity", "off-grid-update", "half-period-tie", "missing-value-written",
-                    "gap-split", "eviction", "query-unaligned", "query-same-slot", "query-index-negative",
+                    "gap-split", "eviction", "query-unaligned", "query-same-slot", "fill-value-zero", "query-index-negative",
                     "query-index-out-of-range", "at-index", "at-timestamp", "at-timestamp-unaligned", "at-gap-slot", "at-out-of-range",
                     "moving-window"]
 REQUIRED_COUNTERS = ["updates_checked", "window_queries_checked", "at_queries_checked", "gap_invariant_checks"]
@@ -71,6 +71,8 @@ def gen(rng: Any, tier: str, i: int) -> Any:
         val: Any = float(step + 1)
         if rng.random() < 0.2:
             val = rng.choice([None, "nan"])
+        elif rng.random() < 0.06:
+            val = 0.0  # a valid sample whose value is zero (falsy) must be stored like any other
         ups.append([cur + off, val])
         slot = _slot(F(cur) + F(str(off)))
         if newest is None or slot >= newest - cap + 1:
@@ -257,7 +259,9 @@ def check(case: dict[str, Any], rec: Any) -> None:
                 oa = qr.choice([0, 0.3, -0.3, 0.5, 0.49, -0.49])
                 ob = qr.choice([0, 0.3, -0.3, 0.5, 0.49, -0.49])
             qa, qb = a + oa, b + ob
-            fill = qr.choice([math.nan, math.nan, -1.0])
+            fill = qr.choice([math.nan, math.nan, -1.0, 0.0, 0.0])
+            if fill == 0.0:
+                rec.bucket("fill-value-zero")
             wq = {**w0, "query": [qa, qb], "fill": repr(fill), "model": sorted(valid.items())}
             try:
                 res = list(buf.window(ts(qa), ts(qb), fill_value=fill))
@@ -426,7 +430,12 @@ def _moving_window(case: dict[str, Any], accepted: list[Any], rec: Any, align: d
                 a, b = qr.randint(-cc - 1, cc + 1), qr.randint(-cc - 1, cc + 1)
                 full = [valid.get(k, math.nan) for k in range(eo, newest + 1)]
                 res = list(mw[a:b])
-                rec.count("window_queries_checked")
+                res0 = list(mw.window(a, b, fill_value=0.0))
+                full0 = [valid.get(k, 0.0) for k in range(eo, newest + 1)]
+                rec.count("window_queries_checked", 2)
+                if len(res0) != len(full0[a:b]) or not all(_same(x, y) for x, y in zip(full0[a:b], res0)):
+                    rec.violation("moving-window-window-with-fill-0-differs-from-model", {**w0, "slice": [a, b], "result": res0,
+                                                                                          "expected": full0[a:b]})
                 if len(res) != len(full[a:b]) or not all(_same(x, y) for x, y in zip(full[a:b], res)):
                     rec.violation("moving-window-slice-differs-from-model", {**w0, "slice": [a, b], "result": res,
                                                                              "expected": full[a:b]})
